@@ -29,6 +29,7 @@ Require TL.Props.C01.
 Require TL.Props.C13.
 Require TL.Props.C03.
 Require TL.Props.C06.
+Require TL.Model.SerdesToy.
 Require Import TL.Model.LeafBridge.
 Require Import TL.Proofs.LeafBridge.
 Local Open Scope nat_scope.
@@ -36,11 +37,25 @@ Local Open Scope string_scope.
 
 (* ================================================================== the scalar level (Scalars' own value type) *)
 (* whatever a scalar unmarshaller returns is an instance of its class: every routine, every input, every runtime *)
-Theorem LB_unm_results_of_class : forall rt k x y, unm_of rt k x = Ok y -> shape k y = true.
+Theorem LB_unm_results_of_class : forall rt k x y, unm_of rt k x = Ok y -> cls rt k y = true.
 Proof. exact unm_shape. Qed.
-(* the isinstance short-circuit of every scalar unmarshaller (UUIDUnmarshaller loads first: LoadLaws) *)
-Theorem LB_unm_isinstance_pass : forall rt k x, shape k x = true -> (k = LUuid -> LoadLaws rt) -> unm_of rt k x = Ok x.
+(* ... an INSTANCE of it, given that E(v) is a member of E (the one kind where cls is weaker than inst: enums) *)
+Theorem LB_unm_results_instances : forall rt k x y,
+  (forall w m, enum_of_val rt w = Ok m -> is_member rt m = true) -> unm_of rt k x = Ok y -> inst rt k y = true.
+Proof. exact unm_inst. Qed.
+(* the isinstance short-circuit of every scalar unmarshaller (UUIDUnmarshaller loads first: LoadLaws): every instance
+   -- True under int, a member of a mixin enum under str / int, a value == to a declared one under a Literal --
+   comes back as it is *)
+Theorem LB_unm_isinstance_pass : forall rt k x, inst rt k x = true -> (k = LUuid -> LoadLaws rt) -> unm_of rt k x = Ok x.
 Proof. exact unm_pass. Qed.
+Theorem LB_exact_is_instance : forall rt k x, exact rt k x = true -> inst rt k x = true.
+Proof. exact exact_inst. Qed.
+(* LiteralMarshaller: a declared (plain) value is answered with itself; anything that no declared value equals with
+   the same class is rejected with ValueError *)
+Theorem LB_literal_marshal : forall rt vs x,
+  (lit_plain x = true -> existsb (val_eqb x) vs = true -> mar_literal rt vs x = Ok x) /\
+  (existsb (lit_match rt x) vs = false -> mar_literal rt vs x = Raise EValue).
+Proof. intros rt vs x. exact (conj (mar_literal_member rt vs x) (mar_literal_rejects rt vs x)). Qed.
 (* marshal then unmarshal, every kind: exact equality inside the strict range *)
 Theorem LB_scalar_round_exact : forall rt ev, RuntimeLaws rt -> forall k x w, FoldLaws rt ->
   in_kind rt ev true k x = true -> mar_of rt ev k x = Ok w -> unm_of rt k w = Ok x.
@@ -49,7 +64,8 @@ Proof. exact round_exact. Qed.
 Theorem LB_scalar_round_sim : forall rt ev, RuntimeLaws rt -> forall k x w,
   in_kind rt ev false k x = true -> mar_of rt ev k x = Ok w -> exists x', unm_of rt k w = Ok x' /\ sim_val x x'.
 Proof. exact round_sim. Qed.
-(* the marshallers of every kind but Enum (m.value is anything) and bytes (no-op) return None / int / float / str *)
+(* the marshallers of every kind but Enum (m.value is anything), bytes (no-op), Pattern (bytes for a bytes pattern) and
+   Literals declaring non-wire values return None / bool / int / float / str *)
 Theorem LB_marshal_wire : forall rt ev k x w, robust_kind k = true -> mar_of rt ev k x = Ok w -> prim_val w = true.
 Proof. exact mar_prim. Qed.
 (* C04's guard for str-valued enum members gives this bridge's guard *)
@@ -87,17 +103,30 @@ Theorem LB_pass_laws : forall C kind_of rts ev rt0 base, coding_law C -> forall 
   Utf8Total rt0 -> (forall e, Core.suppressed base (exn_map e) = true) -> (forall s, LoadLaws (rts s)) ->
   CoreValid.PassLaws (bridged C kind_of rts ev rt0 base) (lv C kind_of rts ev strict).
 Proof. exact bridged_pass_laws. Qed.
+Theorem LB_pass_laws_instances : forall C kind_of rts ev rt0 base, coding_law C ->
+  Utf8Total rt0 -> (forall e, Core.suppressed base (exn_map e) = true) -> (forall s, LoadLaws (rts s)) ->
+  CoreValid.PassLaws (bridged C kind_of rts ev rt0 base) (lv_inst C kind_of rts).
+Proof. exact bridged_pass_laws_inst. Qed.
 Theorem LB_idem_laws : forall C kind_of rts ev rt0 base, coding_law C ->
   Utf8Total rt0 -> (forall e, Core.suppressed base (exn_map e) = true) -> (forall s, LoadLaws (rts s)) ->
+  (forall s w m, enum_of_val (rts s) w = Ok m -> is_member (rts s) m = true) ->
   CoreValid.IdemLaws (bridged C kind_of rts ev rt0 base).
 Proof. exact bridged_idem_laws. Qed.
+(* LoadLaws is C14's theorem (C14_load_nontext) for every runtime whose load IS Serdes.load through a shape T *)
+Theorem LB_load_laws_from_serdes : forall T srt rt, SLoadLaw T srt rt -> SShapeLaws T rt -> LoadLaws rt.
+Proof. exact load_laws_from_serdes. Qed.
+Theorem LB_load_nontext_from_serdes : forall T srt rt v, SLoadLaw T srt rt -> SShapeLaws T rt ->
+  textual rt v = false -> load rt v = Ok v.
+Proof. exact sload_nontext. Qed.
+Theorem LB_induced_load_law : forall T srt rt, SLoadLaw T srt (with_load rt (ind_load T srt)).
+Proof. exact with_load_law. Qed.
 (* LeafLaws (C03) and MarshalLaws (C06): nothing assumed but the coding law *)
 Theorem LB_leaf_laws : forall C kind_of rts ev rt0 base, coding_law C ->
-  CoreC03.LeafLaws (bridged C kind_of rts ev rt0 base) (leaf_class_ok C kind_of).
+  CoreC03.LeafLaws (bridged C kind_of rts ev rt0 base) (leaf_class_ok C kind_of rts).
 Proof. exact bridged_leaf_laws. Qed.
 Theorem LB_marshal_laws : forall C kind_of rts ev rt0 base, coding_law C -> forall strict,
   CoreC06.MarshalLaws (bridged C kind_of rts ev rt0 base) (prim_atom C) (robust_leaf kind_of)
-    (robust_leaf kind_of) (lv C kind_of rts ev strict) no_literal no_member.
+    (robust_leaf kind_of) (lv C kind_of rts ev strict) (lit_leaf kind_of) (lit_member C kind_of rts).
 Proof. exact bridged_marshal_laws. Qed.
 
 (* ================================================================== the composite theorems, leaf hypotheses discharged *)
@@ -138,19 +167,56 @@ Qed.
 
 Theorem C13_idempotent_from_scalar_model : forall C kind_of rts ev rt0 base, coding_law C ->
   Utf8Total rt0 -> (forall e, Core.suppressed base (exn_map e) = true) -> (forall s, LoadLaws (rts s)) ->
+  (forall s w m, enum_of_val (rts s) w = Ok m -> is_member (rts s) m = true) ->
   forall E, CoreValid.wf_env E -> CoreValid.DefaultsConform (bridged C kind_of rts ev rt0 base) E ->
   forall T, (forall k, CoreValid.optional_only E k T = true) ->
   forall n x y, Core.unm (bridged C kind_of rts ev rt0 base) E n T x = Core.Ok y ->
   exists m, forall fuel, m <= fuel -> Core.unm (bridged C kind_of rts ev rt0 base) E fuel T y = Core.Ok y.
 Proof.
-  intros C kind_of rts ev rt0 base CL Ht Hs HLd E. exact (C13.C13_idempotent _ E (bridged_idem_laws C kind_of rts ev rt0 base CL Ht Hs HLd)).
+  intros C kind_of rts ev rt0 base CL Ht Hs HLd HE E. exact (C13.C13_idempotent _ E (bridged_idem_laws C kind_of rts ev rt0 base CL Ht Hs HLd HE)).
+Qed.
+
+(* pass-through for every INSTANCE at the leaves (True where int is annotated, members of mixin enums, values == to a
+   declared Literal value), not only for values of the exact classes *)
+Theorem C13_passthrough_instances_from_scalar_model : forall C kind_of rts ev rt0 base, coding_law C ->
+  Utf8Total rt0 -> (forall e, Core.suppressed base (exn_map e) = true) -> (forall s, LoadLaws (rts s)) ->
+  forall E, CoreValid.wf_env E ->
+  forall n T v, CoreValid.optional_only E n T = true ->
+  CoreValid.valid (lv_inst C kind_of rts) (bridged C kind_of rts ev rt0 base) E n T v = true ->
+  exists m, forall fuel, m <= fuel -> Core.unm (bridged C kind_of rts ev rt0 base) E fuel T v = Core.Ok v.
+Proof.
+  intros C kind_of rts ev rt0 base CL Ht Hs HLd E. exact (C13.C13_passthrough _ E _ (bridged_pass_laws_inst C kind_of rts ev rt0 base CL Ht Hs HLd)).
+Qed.
+
+(* ... with serdes.load taken from C14's model: no LoadLaws hypothesis; what remains is the shape T (how the text
+   model sees the scalars: SShapeLaws, provable for a concrete shape: LB_std_shape_laws), that load IS Serdes.load
+   through it, and "E(v) is a member of E" (a field of Scalars.RuntimeLaws) *)
+Theorem C13_passthrough_from_serdes_model : forall C kind_of rts ev rt0 base T srt, coding_law C ->
+  Utf8Total rt0 -> (forall e, Core.suppressed base (exn_map e) = true) ->
+  (forall s, SLoadLaw T srt (rts s)) -> (forall s, SShapeLaws T (rts s)) ->
+  forall E, CoreValid.wf_env E ->
+  forall n T' v, CoreValid.optional_only E n T' = true ->
+  CoreValid.valid (lv_inst C kind_of rts) (bridged C kind_of rts ev rt0 base) E n T' v = true ->
+  exists m, forall fuel, m <= fuel -> Core.unm (bridged C kind_of rts ev rt0 base) E fuel T' v = Core.Ok v.
+Proof.
+  intros C kind_of rts ev rt0 base T srt CL Ht Hs H1 H2 E. exact (C13.C13_passthrough _ E _ (bridged_pass_laws_inst C kind_of rts ev rt0 base CL Ht Hs (fun s => load_laws_from_serdes T srt (rts s) (H1 s) (H2 s)))).
+Qed.
+Theorem C13_idempotent_from_serdes_model : forall C kind_of rts ev rt0 base T srt, coding_law C ->
+  Utf8Total rt0 -> (forall e, Core.suppressed base (exn_map e) = true) ->
+  (forall s, SLoadLaw T srt (rts s)) -> (forall s, SShapeLaws T (rts s)) -> (forall s, RuntimeLaws (rts s)) ->
+  forall E, CoreValid.wf_env E -> CoreValid.DefaultsConform (bridged C kind_of rts ev rt0 base) E ->
+  forall T', (forall k, CoreValid.optional_only E k T' = true) ->
+  forall n x y, Core.unm (bridged C kind_of rts ev rt0 base) E n T' x = Core.Ok y ->
+  exists m, forall fuel, m <= fuel -> Core.unm (bridged C kind_of rts ev rt0 base) E fuel T' y = Core.Ok y.
+Proof.
+  intros C kind_of rts ev rt0 base T srt CL Ht Hs H1 H2 HL E. exact (C13.C13_idempotent _ E (bridged_idem_laws C kind_of rts ev rt0 base CL Ht Hs (fun s => load_laws_from_serdes T srt (rts s) (H1 s) (H2 s)) (fun s => enum_result_member (rts s) (HL s)))).
 Qed.
 
 (* conformance and wire output: nothing at all is assumed of the interpreter *)
 Theorem C03_conforms_from_scalar_model : forall C kind_of rts ev rt0 base, coding_law C ->
   forall E, CoreC03.wf_env E ->
   forall fuel T x v, Core.unm (bridged C kind_of rts ev rt0 base) E fuel T x = Core.Ok v ->
-  exists n, CoreC03.conforms (bridged C kind_of rts ev rt0 base) E (leaf_class_ok C kind_of) n T v = true.
+  exists n, CoreC03.conforms (bridged C kind_of rts ev rt0 base) E (leaf_class_ok C kind_of rts) n T v = true.
 Proof.
   intros C kind_of rts ev rt0 base CL E. exact (C03.C03_conforms _ E _ (bridged_leaf_laws C kind_of rts ev rt0 base CL)).
 Qed.
@@ -163,6 +229,14 @@ Theorem C06_wire_from_scalar_model : forall C kind_of rts ev rt0 base, coding_la
   CoreC06.is_wire (prim_atom C) w = true.
 Proof.
   intros C kind_of rts ev rt0 base CL strict E R F T. exact (C06.C06_wire _ E _ _ _ R F _ _ _ (bridged_marshal_laws C kind_of rts ev rt0 base CL strict) T).
+Qed.
+
+(* a Literal leaf rejects every value that no declared value equals with the same class: C06's law_literal is a theorem *)
+Theorem C06_literal_rejects_from_scalar_model : forall C kind_of rts ev rt0 base, coding_law C ->
+  forall E s x m, lit_leaf kind_of s = true -> lit_member C kind_of rts s x = false ->
+  Core.mar (bridged C kind_of rts ev rt0 base) E (S m) (Core.TLeaf s) x = Core.Raise Core.EValue.
+Proof.
+  intros C kind_of rts ev rt0 base CL E. exact (C06.C06_literal_rejects _ E _ _ _ _ _ _ (bridged_marshal_laws C kind_of rts ev rt0 base CL true)).
 Qed.
 
 (* ================================================================== guards are necessary *)
@@ -182,13 +256,41 @@ Proof. exact fold_round_fails_scalar. Qed.
 (* the guard enum_value_ok: an enum member whose value is a bytes object does not come back (RuntimeLaws holds) *)
 Theorem LB_refuted_enum_bytes_value :
   RuntimeLaws (with_enum toy_rt bytes_enum_of_val) /\
-  shape LEnum (VEnum "E.c") = true /\
+  exact (with_enum toy_rt bytes_enum_of_val) LEnum (VEnum "E.c") = true /\
   bytes_enum_value "E.c"%string = Ok (VText CBytes "yy") /\
   enum_of_val (with_enum toy_rt bytes_enum_of_val) (VText CBytes "yy") = Ok "E.c"%string /\
   enum_value_ok (with_enum toy_rt bytes_enum_of_val) bytes_enum_value "E.c" = false /\
   mar_of (with_enum toy_rt bytes_enum_of_val) bytes_enum_value LEnum (VEnum "E.c") = Ok (VText CBytes "yy") /\
   unm_of (with_enum toy_rt bytes_enum_of_val) LEnum (VText CBytes "yy") = Raise EValue.
 Proof. exact enum_bytes_round_fails. Qed.
+
+(* the guard pattern_ok: a compiled pattern is written without its flags (re.compile("a+", re.I) comes back as
+   re.compile("a+")); a bytes pattern is written as bytes and read back as a str pattern *)
+Theorem LB_refuted_pattern_flags :
+  exact toy_rt LPattern (VPattern "a+/I") = true /\ pattern_ok toy_rt "a+/I" = false /\
+  mar_of toy_rt ex_ev LPattern (VPattern "a+/I") = Ok (VText CStr "a+") /\
+  unm_of toy_rt LPattern (VText CStr "a+") = Ok (VPattern "a+") /\
+  pattern_ok toy_rt "b:a" = false /\ mar_of toy_rt ex_ev LPattern (VPattern "b:a") = Ok (VText CBytes "a") /\
+  unm_of toy_rt LPattern (VText CBytes "a") = Ok (VPattern "a") /\
+  pattern_ok toy_rt "a+" = true /\ unm_of toy_rt LPattern (VText CStr "(") = Raise EOther.
+Proof. exact pattern_round_fails. Qed.
+
+(* the round trip needs the EXACT class: instances of a subclass pass through unmarshal unchanged but are marshalled
+   as the base class: True under int is written 1, SM.a under str 'SM.a', True under Literal[1, "a", None] is
+   rejected by the marshaller although the unmarshaller hands it back; bool('false') is True *)
+Theorem LB_refuted_round_for_instances :
+  inst toy_rt LInt (VBool true) = true /\ exact toy_rt LInt (VBool true) = false /\
+  unm_of toy_rt LInt (VBool true) = Ok (VBool true) /\ mar_of toy_rt ex_ev LInt (VBool true) = Ok (VInt 1) /\
+  unm_of toy_rt LInt (VInt 1) = Ok (VInt 1) /\
+  inst toy_rt LStr (VEnum "SM.a") = true /\ unm_of toy_rt LStr (VEnum "SM.a") = Ok (VEnum "SM.a") /\
+  mar_of toy_rt ex_ev LStr (VEnum "SM.a") = Ok (VText CStr "SM.a") /\
+  inst toy_rt (LLit ex_lit) (VBool true) = true /\ exact toy_rt (LLit ex_lit) (VBool true) = false /\
+  unm_of toy_rt (LLit ex_lit) (VBool true) = Ok (VBool true) /\
+  mar_of toy_rt ex_ev (LLit ex_lit) (VBool true) = Raise EValue /\
+  unm_of toy_rt (LLit ex_lit) (VText CBytes "a") = Ok (VText CStr "a") /\
+  unm_of toy_rt LBool (VText CStr "false") = Ok (VBool true) /\ unm_of toy_rt LBool (VText CBytes "") = Ok (VBool false) /\
+  unm_of toy_rt LInt (VEnum "IE.one") = Ok (VEnum "IE.one") /\ mar_of toy_rt ex_ev LInt (VEnum "IE.one") = Ok (VInt 1).
+Proof. exact instance_round_fails. Qed.
 
 (* timedelta(0): the open finding KF-C04-dur-zero-PT is about the TEXT ('PT' is not well-formed ISO 8601); the round
    trip HOLDS at zero for every runtime satisfying RuntimeLaws (parse_dur_rt: pendulum reads 'PT' as zero) -- no guard
@@ -205,12 +307,23 @@ Proof. exact zero_duration_facts. Qed.
 (* ================================================================== non-vacuity *)
 Example LB_coding_law_satisfiable : coding_law std_coding.
 Proof. exact std_coding_law. Qed.
+Example LB_std_shape_laws : forall rt, SShapeLaws std_sshape rt.
+Proof. exact std_sshape_laws. Qed.
+(* serdes.load of the toy interpreter replaced by C14's model (its toy text runtime) through the concrete shape: the
+   hypotheses of C13_passthrough_from_serdes_model hold *)
+Example LB_serdes_load_satisfiable :
+  let rt := with_load toy_rt (ind_load std_sshape TL.Model.SerdesToy.toy_rt) in
+  SLoadLaw std_sshape TL.Model.SerdesToy.toy_rt rt /\ SShapeLaws std_sshape rt /\ LoadLaws rt /\ Utf8Total rt.
+Proof.
+  exact (conj (with_load_law std_sshape _ toy_rt) (conj (std_sshape_laws _)
+        (conj (load_laws_from_serdes std_sshape _ _ (with_load_law std_sshape _ toy_rt) (std_sshape_laws _)) toy_utf8_total))).
+Qed.
 Example LB_laws_satisfiable :
   RuntimeLaws toy_rt /\ FoldLaws toy_rt /\ LoadLaws toy_rt /\ Utf8Total toy_rt /\
   (forall e, Core.suppressed ex_base (exn_map e) = true).
 Proof. exact (conj toy_laws (conj toy_fold_laws (conj toy_load_laws (conj toy_utf8_total ex_base_suppresses)))). Qed.
 
-(* list[tuple[int, date, timedelta, Decimal, E, datetime, str, str]] on the toy interpreter with the concrete coding (the
+(* list[tuple[int, date, timedelta, Decimal, E, datetime, str, str, bool, Literal[1, "a", None] x2, Pattern]] on the toy interpreter with the concrete coding (the
    str "kids" is a field name, hence PKey 0): the hypotheses of C01_roundtrip_from_interpreter_laws hold, the model
    computes the wire form shown, and the conclusion of the theorem is what the model computes *)
 Example LB_C01_instance :
@@ -235,7 +348,10 @@ Proof.
 Qed.
 
 Print Assumptions LB_unm_results_of_class.
+Print Assumptions LB_unm_results_instances.
 Print Assumptions LB_unm_isinstance_pass.
+Print Assumptions LB_exact_is_instance.
+Print Assumptions LB_literal_marshal.
 Print Assumptions LB_scalar_round_exact.
 Print Assumptions LB_scalar_round_sim.
 Print Assumptions LB_marshal_wire.
@@ -245,19 +361,31 @@ Print Assumptions LB_leaf_round_sim.
 Print Assumptions LB_leaf_m_inj.
 Print Assumptions LB_none_laws.
 Print Assumptions LB_pass_laws.
+Print Assumptions LB_pass_laws_instances.
 Print Assumptions LB_idem_laws.
+Print Assumptions LB_load_laws_from_serdes.
+Print Assumptions LB_load_nontext_from_serdes.
+Print Assumptions LB_induced_load_law.
 Print Assumptions LB_leaf_laws.
 Print Assumptions LB_marshal_laws.
 Print Assumptions C01_roundtrip_from_interpreter_laws.
 Print Assumptions C01_union_fixpoint_from_interpreter_laws.
 Print Assumptions C13_passthrough_from_scalar_model.
 Print Assumptions C13_idempotent_from_scalar_model.
+Print Assumptions C13_passthrough_instances_from_scalar_model.
+Print Assumptions C13_passthrough_from_serdes_model.
+Print Assumptions C13_idempotent_from_serdes_model.
+Print Assumptions C06_literal_rejects_from_scalar_model.
 Print Assumptions C03_conforms_from_scalar_model.
 Print Assumptions C06_wire_from_scalar_model.
 Print Assumptions LB_refuted_round_exact_with_fold.
 Print Assumptions LB_refuted_fold_scalar.
 Print Assumptions LB_refuted_enum_bytes_value.
+Print Assumptions LB_refuted_pattern_flags.
+Print Assumptions LB_refuted_round_for_instances.
 Print Assumptions LB_zero_duration_roundtrips.
 Print Assumptions LB_coding_law_satisfiable.
+Print Assumptions LB_std_shape_laws.
+Print Assumptions LB_serdes_load_satisfiable.
 Print Assumptions LB_laws_satisfiable.
 Print Assumptions LB_C01_instance.
